@@ -95,15 +95,40 @@ func drawHistory(g *gen.G, descs []*ObjDesc, maxSteps int) []HStep {
 	t := g.T
 	syms := make([]symObj, len(descs))
 	var sq symQ
+	lastArgs := map[int][]Op{}
 	n := 1 + int(t.Uint(uint32(maxSteps)))
 	steps := make([]HStep, 0, n)
+	// focus: right after a long-lived query object is created, the next few steps mostly ask it
+	// questions of its own family, so that reuse sequences are dense enough to hit state carried
+	// from one call to the next
+	focusFam, focusID, focusObj, focusLeft := -1, -1, -1, 0
 	for len(steps) < n {
 		obj := int(t.Uint(uint32(len(descs))))
+		forceFocus := false
+		if focusLeft > 0 {
+			focusLeft--
+			if t.Chance(750) {
+				switch focusFam {
+				case HNewEQ:
+					forceFocus = sq.eqOK[focusID]
+				case HNewCEQ:
+					forceFocus = sq.ceqOK[focusID]
+				case HNewCPQ:
+					forceFocus = sq.cpqOK[focusID]
+				}
+				if forceFocus {
+					obj = focusObj
+				}
+			}
+		}
 		d := descs[obj]
 		sy := &syms[obj]
 		var h HStep
 		h.Obj = obj
 		k := t.Uint(20)
+		if forceFocus {
+			k = 0 // a query
+		}
 		if d.Kind == OIndex {
 			switch {
 			case k < 8:
@@ -137,6 +162,10 @@ func drawHistory(g *gen.G, descs []*ObjDesc, maxSteps int) []HStep {
 			}
 		}
 		switch h.Kind {
+		case HBuild:
+			if d.Kind == OIndex {
+				sq.resume(obj)
+			}
 		case HAdd:
 			h.Shape = sy.next % len(d.Shapes)
 			sy.next++
@@ -159,29 +188,57 @@ func drawHistory(g *gen.G, descs []*ObjDesc, maxSteps int) []HStep {
 			sq.eqObj = append(sq.eqObj, obj)
 			sq.eqOpt = append(sq.eqOpt, h.EQ)
 			sq.eqOK = append(sq.eqOK, true)
+			focusFam, focusID, focusObj, focusLeft = HNewEQ, len(sq.eqObj)-1, obj, 2+int(t.Uint(5))
 		case HNewCEQ:
 			sq.ceqObj = append(sq.ceqObj, obj)
 			sq.ceqOK = append(sq.ceqOK, true)
+			focusFam, focusID, focusObj, focusLeft = HNewCEQ, len(sq.ceqObj)-1, obj, 2+int(t.Uint(5))
 		case HNewCPQ:
 			h.Model = s2.VertexModel(t.Uint(3))
 			sq.cpqObj = append(sq.cpqObj, obj)
 			sq.cpqMod = append(sq.cpqMod, h.Model)
 			sq.cpqOK = append(sq.cpqOK, true)
+			focusFam, focusID, focusObj, focusLeft = HNewCPQ, len(sq.cpqObj)-1, obj, 2+int(t.Uint(5))
 		case HQuery:
 			// prefer reusing a long-lived query when one exists
 			h.Q = drawQuery(g, descs, true)
 			q := &h.Q
+			if forceFocus {
+				// same object, a kind of the focused family, on the focused long-lived query
+				nq := drawQueryOn(g, descs, focusObj)
+				*q = nq
+				switch focusFam {
+				case HNewEQ:
+					q.Kind = []int{QFindEdges, QFindEdges, QDistance, QIsDistLess, QIsConsDist}[t.Uint(5)]
+					q.EQ = sq.eqOpt[focusID]
+					q.TK = int(t.Uint(NumTKinds))
+					if q.TK == TIndex {
+						q.Obj2 = focusObj
+					}
+					q.Limit = s1.ChordAngleFromAngle(s1.Angle(0.0002 + 1.5*t.Float()))
+				case HNewCEQ:
+					q.Kind = []int{QCrossings, QCrossingsMap}[t.Uint(2)]
+				case HNewCPQ:
+					q.Kind = []int{QContainsPoint, QContainingShapes, QShapeContains}[t.Uint(3)]
+					q.Model = sq.cpqMod[focusID]
+				}
+				q.Reuse = focusID
+			}
 			od := descs[q.Obj]
 			if od.Kind == OIndex {
 				nlive := len(syms[q.Obj].live)
 				if (q.Kind == QShapeContains || q.Kind == QCrossings) && q.ShapeID >= nlive {
 					if nlive == 0 {
-						q.Kind = QContainsPoint
+						if q.Kind == QCrossings {
+							q.Kind = QCrossingsMap
+						} else {
+							q.Kind = QContainsPoint
+						}
 					} else {
 						q.ShapeID = q.ShapeID % nlive
 					}
 				}
-				if t.Chance(600) {
+				if !forceFocus && t.Chance(600) {
 					switch q.Kind {
 					case QFindEdges, QDistance, QIsDistLess, QIsConsDist:
 						if r := sq.pickEQ(t, q.Obj); r >= 0 {
@@ -205,6 +262,18 @@ func drawHistory(g *gen.G, descs []*ObjDesc, maxSteps int) []HStep {
 					}
 				}
 			}
+			if od.Kind == OIndex {
+				// ask about an earlier edge / point / cell of this object again: per-query caches
+				// keyed by their arguments only show up when arguments repeat
+				if prev := lastArgs[q.Obj]; len(prev) > 0 && t.Chance(300) {
+					pa := prev[int(t.Uint(uint32(len(prev))))]
+					q.P, q.Q, q.Cell = pa.P, pa.Q, pa.Cell
+				}
+				lastArgs[q.Obj] = append(lastArgs[q.Obj], *q)
+				if q.Reuse < 0 && (q.Kind == QBuild || q.Kind == QWalk || q.Kind == QLocate) {
+					sq.resume(q.Obj)
+				}
+			}
 			h.Obj = q.Obj
 			h.LiveA, h.MutsA = cloneInts(syms[q.Obj].live), cloneInts(syms[q.Obj].muts)
 			h.LiveB, h.MutsB = cloneInts(syms[q.Obj2].live), cloneInts(syms[q.Obj2].muts)
@@ -219,8 +288,10 @@ func drawHistory(g *gen.G, descs []*ObjDesc, maxSteps int) []HStep {
 }
 
 func (sq *symQ) invalidate(obj int) {
-	// EdgeQuery has Reset() for this; the other two query types hold an iterator and no reset
-	// method, so they are simply not reused after the index changed.
+	// EdgeQuery has Reset() for this. The other two query types hold an iterator and have no
+	// reset method: they are not used while the index has unapplied updates (iterator
+	// invalidation, as in every S2 implementation), and are used again once a Build (or a cell
+	// walk / locate, which builds) has made the index fresh: see resume.
 	for i := range sq.ceqObj {
 		if sq.ceqObj[i] == obj {
 			sq.ceqOK[i] = false
@@ -229,6 +300,21 @@ func (sq *symQ) invalidate(obj int) {
 	for i := range sq.cpqObj {
 		if sq.cpqObj[i] == obj {
 			sq.cpqOK[i] = false
+		}
+	}
+}
+
+// resume: the index of obj is certainly fresh again; long-lived iterator-holding queries on it may
+// be asked new questions.
+func (sq *symQ) resume(obj int) {
+	for i := range sq.ceqObj {
+		if sq.ceqObj[i] == obj {
+			sq.ceqOK[i] = true
+		}
+	}
+	for i := range sq.cpqObj {
+		if sq.cpqObj[i] == obj {
+			sq.cpqOK[i] = true
 		}
 	}
 }
@@ -367,6 +453,7 @@ func runC13(rc *runCtx) *RunResult {
 	for i, d := range descs {
 		rc.log("obj%d %s", i, describeObj(d))
 	}
+	drawKindMask(g.T)
 	maxSteps := 25
 	steps := drawHistory(g, descs, maxSteps)
 	_ = t
